@@ -392,3 +392,36 @@ func (e *Engine) ObsSignature() (sig string, nontrivial bool) {
 	sort.Strings(ks)
 	return strings.Join(ks, ";"), nontrivial
 }
+
+// PubTruth holds the true numbers of one publish.
+type PubTruth struct{ Handlers, Panics, Appends, AppendFails int }
+
+// PerPublishTruth returns the true numbers per publish, in publish-call order.
+func (e *Engine) PerPublishTruth() []PubTruth {
+	var out []PubTruth
+	idx := map[uint64]int{}
+	for _, pi := range e.sortedPubs() {
+		idx[pi.eid] = len(out)
+		out = append(out, PubTruth{})
+	}
+	for _, t := range e.Trace {
+		i, ok := idx[t.EID]
+		if !ok || t.EID == 0 {
+			continue
+		}
+		switch t.K {
+		case "h.enter":
+			out[i].Handlers++
+		case "h.exit":
+			if t.Err {
+				out[i].Panics++
+			}
+		case "store.append":
+			out[i].Appends++
+			if t.Err {
+				out[i].AppendFails++
+			}
+		}
+	}
+	return out
+}
